@@ -108,6 +108,11 @@ var FalseResult = types.NewXObject(map[string]types.XValue{
 	"match":       types.XTextEmpty,
 })
 
+func init() {
+	// objects are initialized lazily, which isn't safe to leave to concurrent sessions for an object they all share
+	FalseResult.Count()
+}
+
 //------------------------------------------------------------------------------------------
 // Tests
 //------------------------------------------------------------------------------------------
